@@ -34,20 +34,23 @@ Definition go_slice (s : bstr) (lo hi : Z) : outcome bstr :=
 (* the variables start, end captured by the closure VarHeaderPostprocessor.substr returns *)
 Record substr_st := { sb_start : Z; sb_end : Z }.
 
-(* one call of that closure: result and the captured variables afterwards (the closure ASSIGNS them).
-     l := len(in)
-     if start < 0 { start = l + start }
-     if end <= 0 { end = l + end }
-     if end > l { end = l }
-     if start > end { start, end = end, start }
-     return in[start:end] *)
+(* one call of that closure: result and the captured variables afterwards.
+     l := len(in); s, e := start, end
+     if s < 0 { s = l + s }; if s < 0 { s = 0 }; if s > l { s = l }
+     if e <= 0 { e = l + e }; if e < 0 { e = 0 }; if e > l { e = l }
+     if s > e { s, e = e, s }
+     return in[s:e]
+   (the captured variables themselves are no longer assigned) *)
 Definition substr_call (st : substr_st) (s : bstr) : outcome bstr * substr_st :=
   let l := blen s in
   let s1 := if sb_start st <? 0 then l + sb_start st else sb_start st in
+  let s2 := if s1 <? 0 then 0 else s1 in
+  let s3 := if s2 >? l then l else s2 in
   let e1 := if sb_end st <=? 0 then l + sb_end st else sb_end st in
-  let e2 := if e1 >? l then l else e1 in
-  let '(lo, hi) := if s1 >? e2 then (e2, s1) else (s1, e2) in
-  (go_slice s lo hi, {| sb_start := lo; sb_end := hi |}).
+  let e2 := if e1 <? 0 then 0 else e1 in
+  let e3 := if e2 >? l then l else e2 in
+  let '(lo, hi) := if s3 >? e3 then (e3, s3) else (s3, e3) in
+  (go_slice s lo hi, st).
 
 (* successive calls of ONE closure *)
 Fixpoint substr_seq (st : substr_st) (inputs : list bstr) : list (outcome bstr) :=
@@ -230,11 +233,11 @@ Definition grpc_assert (cfg_status : Z) (payload : list bstr) (code : Z) (out : 
 
 (* ---------- var/xpath, var/jsonpath: the libraries' answers are inputs ---------- *)
 Inductive xkind := XNodeSet | XNumber | XString | XBool.
-(* getValuesFromDOM: compile error -> error; the value of expr.Evaluate is converted to a NodeIterator by an UNCHECKED type
-   assertion: a non-node-set value panics *)
+(* getValuesFromDOM: compile error -> error; the value of Evaluate is used as a node iterator only after a
+   checked type assertion (a non-node-set value is an error) *)
 Definition xpath_values (compiles : bool) (k : xkind) : outcome unit :=
   if negb compiles then Failed
-  else match k with XNodeSet => Done tt | _ => Panicked end.
+  else match k with XNodeSet => Done tt | _ => Failed end.
 
 Fixpoint var_xpath_process (mapping : list (bool * xkind)) : outcome unit :=
   match mapping with
@@ -248,6 +251,21 @@ Fixpoint var_xpath_process (mapping : list (bool * xkind)) : outcome unit :=
 
 Definition var_jsonpath_process (json_ok : bool) (paths_ok : list bool) : outcome unit :=
   if negb json_ok then Failed else if forallb (fun b => b) paths_ok then Done tt else Failed.
+
+(* a configured postprocessor together with what it sees of the response *)
+Inductive pp_cfg :=
+| PPHeader (mapping : list (list mod_spec * bstr))      (* modifier chain, value of the header *)
+| PPAssert (a : assert_cfg) (r : resp_view)
+| PPXpath (mapping : list (bool * xkind))
+| PPJsonpath (json_ok : bool) (paths_ok : list bool).
+
+Definition pp_eval (p : pp_cfg) : outcome unit :=
+  match p with
+  | PPHeader m => var_header_process m
+  | PPAssert a r => assert_process a r
+  | PPXpath m => var_xpath_process m
+  | PPJsonpath j ps => var_jsonpath_process j ps
+  end.
 
 (* ---------- guns ---------- *)
 Inductive conn := ConnOk | ConnRefused | ConnReset | ConnTimeout | ConnEof | ConnProto.
